@@ -23,21 +23,16 @@ def dictionary(value, dictionary_class):
     return value
 
 
+_NUMBER_FIELD = r"(?:\d+\.?\d*|\.\d+)"
+# integer, decimal or sexagesimal with ':', ';' or blank separators
+_NUMBER_RE = re.compile(r"^[+-]?%s(?:[:; ]%s){0,2}$" % (_NUMBER_FIELD, _NUMBER_FIELD))
+
+
 def number(value):
-    regexps = (
-        r"^\-?\d+$",  # int
-        r"^\-?\d+\.\d+$",
-        r"^\-?\d+\.$",
-        r"^\-?\.\d+$",  # float
-        r"^\-?\d+:\d{2}$",  # :mm
-        r"^\-?\d+:\d{2}\.\d+$",  # :mm.m
-        r"^\-?\d+:\d{2}:\d{2}$",  # :mm:ss
-        r"^\-?\d+:\d{2}:\d{2}\.\d+$",  # :mm:ss.s
-    )
     if value is None:
         return None
 
-    if not any([re.match(r, str(value)) for r in regexps]):
+    if not _NUMBER_RE.match(str(value)):
         raise ValueError("Invalid value for number: %s", value)
 
     return value
